@@ -818,7 +818,8 @@ func (t *tread) handle(cs *connState) message {
 				return linux.EINVAL
 			}
 
-			if t.Offset+uint64(count) > uint64(len(ref.pendingXattr.buf)) {
+			// (Written so that a huge offset cannot wrap around.)
+			if size := uint64(len(ref.pendingXattr.buf)); t.Offset > size || uint64(count) > size-t.Offset {
 				return linux.EINVAL
 			}
 
